@@ -13,6 +13,7 @@ import ArvVerif.Base.Loop
 import ArvVerif.Model.C12
 import ArvVerif.Model.C05
 import ArvVerif.Model.C05_Enum
+import ArvVerif.Model.C05_BlockState
 open ArvVerif ArvVerif.C05
 
 namespace C05Driver
@@ -133,7 +134,7 @@ def showBBS (b : BBS) : String :=
 
 def dash (l : List String) (sep : String) : String := if l.isEmpty then "-" else sep.intercalate l
 
-def outcome (cx : Ctx) (b : BState) : String :=
+def outcome (cx : Ctx) (short : Bool) (b : BState) : String :=
   let slots := finalWant b
   let changes := slots.map (fun s => (s, change cx.env cx.reps s))
   let lost := lostFlag cx.env cx.classes cx.reps changes
@@ -160,7 +161,8 @@ def outcome (cx : Ctx) (b : BState) : String :=
   let bs := computeBlockState slots none have_ 0
   let cs := cx.classes.map fun c =>
     cx.classNames[c]! ++ ":" ++ showBBS (computeBlockState slots (some c) have_ (cx.env.desired c))
-  s!"lost={if lost then 1 else 0} T={dash ts ";"} P={dash ps ";"} bs={showBBS bs} cs={dash cs ";"}"
+  if short then s!"lost={if lost then 1 else 0} T={dash ts ";"} P={dash ps ";"}"
+  else s!"lost={if lost then 1 else 0} T={dash ts ";"} P={dash ps ";"} bs={showBBS bs} cs={dash cs ";"}"
 
 /-- all final states reachable through the class loop -/
 def explore (cx : Ctx) (b0 : BState) : Option (List BState) :=
@@ -176,58 +178,125 @@ def explore (cx : Ctx) (b0 : BState) : Option (List BState) :=
       if cs.isEmpty then some flat else go cs (dedupStates (flat.map canonState))
   go active [b0]
 
+/-- one block against a layout: (prefix, outcomes) or an error token -/
+def runBlock (hash : String) (minM : Int) (svcs : List PService) (reps : List (Nat × Nat × Int))
+    (des : List (String × Nat)) (short : Bool) : Except String (String × List String) := do
+  let svcA := svcs.toArray
+  -- class codes in name order
+  let names := ("default" :: svcs.flatMap (fun s => s.mounts.flatMap (·.classes)) ++ des.map (·.1)).eraseDups
+  let classNames := names.toArray.qsort (· < ·)
+  let codeOf := fun (n : String) => (classNames.findIdx? (· == n)).getD 0
+  let dflt := codeOf "default"
+  -- device codes: "" ↦ 0
+  let devNames := ("" :: (svcs.flatMap (fun s => s.mounts.map (·.dev))).filter (· != "")).eraseDups.toArray
+  let devOf := fun (d : String) => (devNames.findIdx? (· == d)).getD 0
+  -- mount ids
+  let mountPos := (svcs.zipIdx.flatMap fun (s, si) => s.mounts.zipIdx.map fun (_, mi) => (si, mi)).toArray
+  let idOf := fun (si mi : Nat) => (mountPos.findIdx? (· == (si, mi))).getD 0
+  let raw : List RawService := svcs.zipIdx.map fun (s, si) =>
+    { id := si, ro := s.ro,
+      mounts := s.mounts.zipIdx.map fun (m, mi) =>
+        { id := idOf si mi, dev := devOf m.dev, ro := m.ro, repl := m.repl, classes := m.classes.map codeOf } }
+  -- rendezvous ranks (C12)
+  let w := fun (si : Nat) => C12.weight md5Nat hash.toList (svcA[si]!.uuid).toList
+  let ws := (List.range svcs.length).map w
+  if ws.eraseDups.length != ws.length then throw "rank-tie"
+  let order := C12.probeOrder w (List.range svcs.length)
+  let rankA := (List.range svcs.length).map (fun si => (order.findIdx? (· == si)).getD 0) |>.toArray
+  let devW := devNames.map (fun d => md5Nat (hash ++ d).toList)
+  let env : Env :=
+    { rank := fun si => rankA[si]?.getD 0,
+      devLess := fun a b => devW[a]?.getD 0 < devW[b]?.getD 0,
+      minMtime := minM,
+      desired := fun c => ((des.find? (fun p => codeOf p.1 == c)).map (·.2)).getD 0 }
+  let cl := cleanupMounts raw
+  let classes := classesOf dflt cl
+  let mounts := effMounts dflt cl
+  let mreps : List Replica := reps.map fun (si, mi, mt) => { mnt := idOf si mi, srv := si, mtime := mt }
+  let cx : Ctx := { hash, env, classNames, classes, mountPos, reps := mreps }
+  let ms := mountPos.toList.zipIdx.map fun ((si, mi), id) =>
+    match mounts.find? (·.id == id) with
+    | some m => s!"{si}.{mi}:{if m.ro then 1 else 0}:{m.repl}"
+    | none => s!"{si}.{mi}:x"
+  let pre := s!"classes={",".intercalate (classes.map (classNames[·]!))} mounts={dash ms ","}"
+  match explore cx { slots := initSlots mounts mreps, utd := [], underrep := false } with
+  | none => throw "too-many-ties"
+  | some finals => pure (pre, (finals.map (outcome cx short)).eraseDups)
+
+structure PColl where
+  pdh : Nat
+  n : Nat
+  classes : List String
+
+def parseColl? (s : String) : Option PColl :=
+  match s.splitOn "*" with
+  | [a, b, c] => do
+    let pdh ← parseNat? a
+    let n ← parseNat? b
+    let classes ← if c == "-" then some [] else (c.splitOn "+").mapM (parseClass? · false)
+    some { pdh, n, classes }
+  | _ => none
+
+def parseBlock? (svcA : Array PService) (s : String) : Option (String × List (Nat × Nat × Int) × List PColl) :=
+  match s.splitOn ":" with
+  | [h, r, c] => do
+    if h.length != 32 || !h.toList.all isHexLower then none
+    let reps ← if r == "-" then some [] else (r.splitOn ",").mapM (parseReplica? svcA)
+    let colls ← if c == "-" then some [] else (c.splitOn "&").mapM parseColl?
+    some (h, reps, colls)
+  | _ => none
+
+def parseServices? (svcS : String) : Option (List PService) := do
+  let svcs ← if svcS == "-" then some [] else (svcS.splitOn ";").mapM parseService?
+  if (svcs.map (·.uuid)).eraseDups.length != svcs.length then none
+  some svcs
+
 def step (line : String) : String :=
   match fields line with
   | ["bb", hash, minS, svcS, repS, desS] =>
     let r : Option String := do
       if hash.length != 32 || !hash.toList.all isHexLower then none
       let minM ← parseInt? minS
-      let svcs ← if svcS == "-" then some [] else (svcS.splitOn ";").mapM parseService?
-      if (svcs.map (·.uuid)).eraseDups.length != svcs.length then none
+      let svcs ← parseServices? svcS
       let svcA := svcs.toArray
       let reps ← if repS == "-" then some [] else (repS.splitOn ",").mapM (parseReplica? svcA)
       let des ← if desS == "-" then some [] else (desS.splitOn ",").mapM parseDesired?
       if (des.map (·.1)).eraseDups.length != des.length then none
-      -- class codes in name order
-      let names := ("default" :: svcs.flatMap (fun s => s.mounts.flatMap (·.classes)) ++ des.map (·.1)).eraseDups
-      let classNames := names.toArray.qsort (· < ·)
-      let codeOf := fun (n : String) => (classNames.findIdx? (· == n)).getD 0
-      let dflt := codeOf "default"
-      -- device codes: "" ↦ 0
-      let devNames := ("" :: (svcs.flatMap (fun s => s.mounts.map (·.dev))).filter (· != "")).eraseDups.toArray
-      let devOf := fun (d : String) => (devNames.findIdx? (· == d)).getD 0
-      -- mount ids
-      let mountPos := (svcs.zipIdx.flatMap fun (s, si) => s.mounts.zipIdx.map fun (_, mi) => (si, mi)).toArray
-      let idOf := fun (si mi : Nat) => (mountPos.findIdx? (· == (si, mi))).getD 0
-      let raw : List RawService := svcs.zipIdx.map fun (s, si) =>
-        { id := si, ro := s.ro,
-          mounts := s.mounts.zipIdx.map fun (m, mi) =>
-            { id := idOf si mi, dev := devOf m.dev, ro := m.ro, repl := m.repl, classes := m.classes.map codeOf } }
-      -- rendezvous ranks (C12)
-      let w := fun (si : Nat) => C12.weight md5Nat hash.toList (svcA[si]!.uuid).toList
-      let ws := (List.range svcs.length).map w
-      if ws.eraseDups.length != ws.length then some "rank-tie" else
-      let order := C12.probeOrder w (List.range svcs.length)
-      let rankA := (List.range svcs.length).map (fun si => (order.findIdx? (· == si)).getD 0) |>.toArray
-      let devW := devNames.map (fun d => md5Nat (hash ++ d).toList)
-      let env : Env :=
-        { rank := fun si => rankA[si]?.getD 0,
-          devLess := fun a b => devW[a]?.getD 0 < devW[b]?.getD 0,
-          minMtime := minM,
-          desired := fun c => ((des.find? (fun p => codeOf p.1 == c)).map (·.2)).getD 0 }
-      let cl := cleanupMounts raw
-      let classes := classesOf dflt cl
-      let mounts := effMounts dflt cl
-      let mreps : List Replica := reps.map fun (si, mi, mt) => { mnt := idOf si mi, srv := si, mtime := mt }
-      let cx : Ctx := { hash, env, classNames, classes, mountPos, reps := mreps }
-      let ms := mountPos.toList.zipIdx.map fun ((si, mi), id) =>
-        match mounts.find? (·.id == id) with
-        | some m => s!"{si}.{mi}:{if m.ro then 1 else 0}:{m.repl}"
-        | none => s!"{si}.{mi}:x"
-      let pre := s!"classes={",".intercalate (classes.map (classNames[·]!))} mounts={dash ms ","}"
-      match explore cx { slots := initSlots mounts mreps, utd := [], underrep := false } with
-      | none => some "too-many-ties"
-      | some finals => some (pre ++ " # " ++ " # ".intercalate ((finals.map (outcome cx)).eraseDups))
+      match runBlock hash minM svcs reps des false with
+      | .error e => some e
+      | .ok (pre, outs) => some (pre ++ " # " ++ " # ".intercalate outs)
+    r.getD "bad-op"
+  | ["cs", minS, order, svcS, blkS] =>
+    let r : Option String := do
+      let minM ← parseInt? minS
+      if order != "ri" && order != "ir" then none
+      if blkS.isEmpty then none
+      let svcs ← parseServices? svcS
+      let svcA := svcs.toArray
+      let blocks ← (blkS.splitOn "~").mapM (parseBlock? svcA)
+      if (blocks.map (·.1)).eraseDups.length != blocks.length then none
+      -- class codes for the gathering model (block_state.go)
+      let names := ("default" :: blocks.flatMap (fun b => b.2.2.flatMap (·.classes))).eraseDups.toArray
+      let codeOf := fun (n : String) => (names.findIdx? (· == n)).getD 0
+      let results : List (Except String (String × List String)) := blocks.map fun ((h, reps, colls) : String × List (Nat × Nat × Int) × List PColl) =>
+        if reps.isEmpty && colls.isEmpty then Except.ok ("", ["absent"]) else
+        let repOps : List BlockOp := reps.map fun (si, mi, mt) => .rep { mnt := si * 1000 + mi, srv := si, mtime := mt }
+        let collOps : List BlockOp := colls.map fun c => .coll (some c.pdh) (c.classes.map codeOf) c.n
+        let bs := gather (codeOf "default") (if order == "ri" then repOps ++ collOps else collOps ++ repOps)
+        let des := bs.desired.map fun (c, n) => (names[c]!, n)
+        let greps := bs.replicas.map fun r => (r.srv, r.mnt % 1000, r.mtime)
+        let refs := ((lostRefs bs).map (fun p => "pdh" ++ toString p)).toArray.qsort (· < ·) |>.toList
+        match runBlock h minM svcs greps des true with
+        | Except.error e => Except.error e
+        | Except.ok (pre, outs) => Except.ok (pre, outs.map fun o => o ++ " refs=" ++ (if o.startsWith "lost=1" then dash refs "," else "-"))
+      match results.find? (fun r => match r with | Except.error _ => true | Except.ok _ => false) with
+      | some (Except.error e) => some e
+      | _ =>
+        let oks := results.filterMap fun r => match r with | Except.ok x => some x | Except.error _ => none
+        -- the prefix depends on the layout only; take it from a block-independent run
+        match runBlock "00000000000000000000000000000000" minM svcs [] [] true with
+        | .error e => some e
+        | .ok (pre, _) => some (pre ++ " # " ++ " ~ ".intercalate (oks.map fun (_, outs) => " | ".intercalate outs))
     r.getD "bad-op"
   | _ => "bad-op"
 
